@@ -1085,7 +1085,7 @@ def _run(ctx, z):
                 'DaeError subclass, truncated or non-XML bytes) and the files of collada/tests/data, merged at random / round-robin / '
                 'block-sequentially. A case is non-trivial when at least two documents were live, the schedule switches document at '
                 'least twice, and the documents differ in namespace or ignore mask or one load failed; distinct = distinct schedule')
-    ncases = ctx.n(220, 5000)
+    ncases = ctx.n(180, 5000)
     maxops = 6 if not ctx.thorough else 10
     cases = [gen_case(ctx.rng, maxops) for _ in range(ncases)]
 
